@@ -154,7 +154,10 @@ func (d *duplexHTTPCall) Read(data []byte) (int, error) {
 		return 0, fmt.Errorf("nil response from %v", d.request.URL)
 	}
 	n, err := d.response.Body.Read(data)
-	return n, wrapIfRSTError(err)
+	// If the context is canceled or times out while we're blocked reading the
+	// response, net/http fails the read with the context's error: report it
+	// with the matching code rather than as a protocol error.
+	return n, wrapIfContextError(wrapIfRSTError(err))
 }
 
 func (d *duplexHTTPCall) CloseRead() error {
